@@ -57,6 +57,7 @@ def _worker(arg):
                 if not same and n < 2:
                     continue
                 cnt += 1
+                it.steps = 0            # the step budget is per decision, not per block of decisions
                 got = decide(it, f, n, m, same)
                 if got != dictspec.label_kind(n, m, same):
                     if len(bad) < 3:
